@@ -77,10 +77,18 @@ namespace cnl::_impl {
                     continue;
                 }
 
-                if (!oob(output.significand)) {
-                    output.significand *= InRadix;
-                    in_exponent--;
+                if (oob(output.significand)) {
+                    if (Precise) {
+                        unreachable<descaled<Significand, OutRadix>>("number cannot be represented in this form");
+                    }
+                    // no room to scale up: drop the least significant digit instead
+                    output.significand /= OutRadix;
+                    output.exponent++;
+                    continue;
                 }
+
+                output.significand *= InRadix;
+                in_exponent--;
             }
         }
 
